@@ -39,6 +39,8 @@ comparison callback is a consistent ordering.  Decided:
                the water masses of the solutions (a water-weighted amount divided by a water-weighted sum, accumulators
                classified from their own updates); divided by a plain sum of fractions the weights scale with the water mass and
                temperature / pressure of a mix depend on how much water the solutions hold
+  C15.spreaddefaults  every member of the SOLUTION_SPREAD `defaults` object (block-level -temp, -density [calculate], -units, -redox, -pH,
+               -pe, -water, -pressure, -isotope) is applied to the rows by spread_row_to_solution
 Not decided: unit conversion, density iteration, extensive/intensive scaling, mixing order, repeated definitions (all need the
 numerical result of two runs).
 """
@@ -400,6 +402,28 @@ def gfw_rule(P, R):
         R.anchor_missing("C15.gfw", "convert_units: the default formula-weight look-up was not found")
 
 
+def spreaddefaults_rule(P, R):
+    """"SOLUTION_SPREAD rows versus SOLUTION blocks": the block-level options of SOLUTION_SPREAD (-temp, -density [calculate], -units,
+    -redox, -pH, -pe, -water, -pressure, -isotope) are collected in an object of class `defaults` and applied to every row by
+    spread_row_to_solution.  Every member of that class must be read there; a member that is parsed but not applied makes the rows
+    differ from the SOLUTION block that states the same option."""
+    RULE = "C15.spreaddefaults"
+    R.rule(RULE, "every member of the SOLUTION_SPREAD defaults object is applied to the rows by spread_row_to_solution", minimum=9)
+    from .. import mustwrite as MW
+    flds = MW.all_fields(P, "defaults")
+    if len(flds) < 9:
+        R.anchor_missing(RULE, "class defaults: only %d members found" % len(flds))
+        return
+    f = P.one("Phreeqc::spread_row_to_solution")
+    reads = set(y[2] for y in T.walk(f["body"]) if y[0] == "Member" and y[2].startswith("defaults::"))
+    for fl in flds:
+        if fl["q"] in reads:
+            R.ok(RULE, fl["name"], "applied")
+        else:
+            R.violation(RULE, fl["name"], "the block-level default `%s` of SOLUTION_SPREAD is parsed (read_solution_spread) but never applied to the rows: a spread row differs from the "
+                        "SOLUTION block that states the same option" % fl["name"], file=f["file"], line=f["line"], function=f["q"])
+
+
 def mixweights_rule(P, R):
     from .. import ratfun as RF
     from fractions import Fraction
@@ -481,6 +505,7 @@ def mixweights_rule(P, R):
 
 def run(P, R, tier):
     mixweights_rule(P, R)
+    spreaddefaults_rule(P, R)
     gfw_rule(P, R)
     addsol_rule(P, R)
     addmul_rule(P, R)
